@@ -8,7 +8,7 @@ from . import _text
 
 ID = 'C07'
 LEVEL = 'exploration'
-RULE = ('cases = hostile mix (~90% contain an error) + whole files on cycled versions; both parser modes run on the same '
+RULE = ('cases = hostile mix (~90% contain an error), valid snippets and one-line compound statements with and without a final newline, whole files, on cycled versions, all through the same grammar objects in one process; both parser modes run on the same '
         'input: strict raises ParserSyntaxError iff the recovered tree has an error node/leaf; if not, the two trees '
         'have equal signatures; if so, the strict error leaf has the position (and, unless it is a zero-width '
         'indentation token, the value and token type) of the first error the recovering parser marks. '
@@ -80,8 +80,24 @@ def _judge(ctx, v, code):
         ctx.sample({'version': v, 'code': code, 'strict_error': [tt, el.value, list(el.start_pos)], 'recovered_first': kind})
 
 
+EOF_FORMS = ['try: x', 'if a: b', 'if a:\n    b', 'class C:\n    def f(self): pass', 'with a: b', 'for x in y: z', 'while x: y', 'def f(): return',
+             'try: x\nfinally: y', 'x = 1', 'if a: b\nelse: c', 'try: x\nexcept: y', 'class C: pass', 'async def f(): pass', 'lambda: 0',
+             'x = (1,\n 2)', 'x = 1  # c', 'if a:\n    b\n    ', 'def f():\n    return 1\n  ', 'x = 1\\\n', 'x = 1;', 'pass; pass', '@d\ndef f(): pass']
+
+
+def _gen(rng, files):
+    r = rng.random()
+    if r < .08:
+        return rng.choice(EOF_FORMS)
+    if r < .16:
+        from ..gen import valid
+        s = rng.choice(valid.VALID_SNIPPETS)
+        return s.rstrip('\r\n') if rng.random() < .6 else s
+    return G.hostile(rng, files)
+
+
 def run_shard(spec, ctx):
-    it = _text.whole_files(spec, ctx) if spec['kind'] == 'files' else _text.cases(spec, ctx)
+    it = _text.whole_files(spec, ctx) if spec['kind'] == 'files' else _text.cases(spec, ctx, gen=_gen)
     for v, code, origin in it:
         _judge(ctx, v, code)
 
